@@ -264,14 +264,7 @@ func (g Gate) enforcesBool(h *ssa.Function, ri0 int) (bool, bool) {
 			allVerdict = false
 			break
 		}
-		a := Atom{X: v}
-		for {
-			if u, ok := a.X.(*ssa.UnOp); ok && u.Op == token.NOT {
-				a.X, a.Neg = u.X, !a.Neg
-				continue
-			}
-			break
-		}
+		a := AtomOfValue(v) // `return x == y` as well as `return ok` / `return !ok`
 		m, pwt := gg.Match(a)
 		if !m {
 			allVerdict = false
@@ -387,6 +380,38 @@ func (g Gate) impliedBy(v ssa.Value, truth bool, fn *ssa.Function, depth int) bo
 		return (truth != a.Neg) == pwt
 	}
 	u, neg := stripBool(v)
+	// slices.ContainsFunc(list, pred) being true: pred answered true for some element
+	if call, isCall := u.(*ssa.Call); isCall && truth != neg && len(call.Call.Args) == 2 {
+		if o := CalleeObj(&call.Call); o != nil && o.Pkg() != nil && strings.HasSuffix(o.Pkg().Path(), "slices") && o.Name() == "ContainsFunc" {
+			var pred *ssa.Function
+			switch x := call.Call.Args[1].(type) {
+			case *ssa.MakeClosure:
+				pred, _ = x.Fn.(*ssa.Function)
+			case *ssa.Function:
+				pred = x
+			}
+			if pred != nil && pred.Blocks != nil {
+				n := 0
+				for _, ri := range Returns(pred) {
+					ret := ri.(*ssa.Return)
+					if len(ret.Results) != 1 {
+						return false
+					}
+					if b, isC := BoolConst(ret.Results[0]); isC {
+						if b {
+							return false
+						}
+						continue
+					}
+					n++
+					if !g.in(pred).impliedBy(ret.Results[0], true, pred, depth+1) {
+						return false
+					}
+				}
+				return n > 0
+			}
+		}
+	}
 	phi, ok := u.(*ssa.Phi)
 	if !ok || !isBoolType(phi.Type()) {
 		return false
@@ -437,6 +462,38 @@ func (g Gate) impliedBy(v ssa.Value, truth bool, fn *ssa.Function, depth int) bo
 		}
 	}
 	return true
+}
+
+// OrGate: the disjunction of gates as one gate. It has no direct sites of its
+// own (those are counted per disjunct by the caller); its pass edges are the
+// tests of helpers that enforce the disjunction as a whole.
+func OrGate(gates []Gate) Gate {
+	var ns []string
+	for _, g := range gates {
+		ns = append(ns, g.Name)
+	}
+	name := "(" + strings.Join(ns, " ∨ ") + ")"
+	var forFn func(h *ssa.Function) Gate
+	forFn = func(h *ssa.Function) Gate {
+		var inner []Gate
+		for _, g := range gates {
+			inner = append(inner, g.in(h))
+		}
+		o := Gate{Name: name}
+		o.Match = func(a Atom) (bool, bool) {
+			for _, g := range inner {
+				if m, pwt := g.Match(a); m {
+					return true, pwt
+				}
+			}
+			return false, false
+		}
+		o.For = forFn
+		return o
+	}
+	or := Gate{Name: name, For: forFn}
+	or.Match = func(a Atom) (bool, bool) { return false, false }
+	return or
 }
 
 // PassEdges returns the pass edges of g in fn and the number of Ifs matched.
@@ -1430,6 +1487,36 @@ func callSinks(fn *ssa.Function, m CallMatcher, all bool, depth int) []ssa.Instr
 			sinkExpansion[c] = expansion{h, inner}
 		}
 	}
+	return out
+}
+
+// InstrSinksX: the instructions of fn satisfying pred, plus — standing for the
+// matches inside them — the calls of functions new since the anchor snapshot
+// that contain matches (see ExpandSink / gatedInsideHelper).
+func InstrSinksX(fn *ssa.Function, pred func(ssa.Instruction) bool) []ssa.Instruction {
+	return instrSinks(fn, pred, 0)
+}
+
+func instrSinks(fn *ssa.Function, pred func(ssa.Instruction) bool, depth int) []ssa.Instruction {
+	var out []ssa.Instruction
+	Instrs(fn, func(in ssa.Instruction) {
+		if pred(in) {
+			out = append(out, in)
+			return
+		}
+		c, ok := in.(ssa.CallInstruction)
+		if !ok || depth >= 2 {
+			return
+		}
+		h := CalleeFunc(c.Common())
+		if h == nil || h.Blocks == nil || h == fn || !IsRepoFunc(h) || !IsNewFunc(h) {
+			return
+		}
+		if inner := instrSinks(h, pred, depth+1); len(inner) > 0 {
+			out = append(out, in)
+			sinkExpansion[in] = expansion{h, inner}
+		}
+	})
 	return out
 }
 
